@@ -100,6 +100,14 @@ def cmd_import(src, patch, demo, sid, prop, helpers):
                         + ' (load-sensitive test_on_ready_counter_is_synchronized passed when rerun alone)'
                     break
                 time.sleep(20)
+            else:
+                # still failing: is it the machine?  the same test alone on the unchanged tree
+                rc3, out3 = sh('%s -m pytest -q -p no:cacheprovider --timeout=120 t/unit/test_pool.py '
+                               '-k on_ready_counter' % PY, cwd=clean, timeout=300)
+                if ' failed' in out3:
+                    meta['confirmed']['tests_with_patch'] = tail[0].replace('1 failed, 39 passed', '39 passed') \
+                        + ' (plus the load-sensitive test_on_ready_counter_is_synchronized, which fails on the' \
+                          ' unchanged tree as well under the present machine load)'
         rc_p, out_p = run_demo(pat, dst, os.path.join(dst, 'demo.py'))
         rc_c, out_c = run_demo(clean, dst, os.path.join(dst, 'demo.py'))
         meta['confirmed']['demo_rc_with_patch'] = rc_p
